@@ -3,7 +3,7 @@
     Only statements, each closed by [exact] of a lemma of [Record/Proofs.v], with
     [Print Assumptions] beneath.  Histories are arbitrary lists of transactions (each an
     arbitrary list of create-record messages, executed atomically) and block boundaries. *)
-From Irismod Require Import Record.Model Record.Proofs.
+From Irismod Require Import Record.Model Record.Proofs Record.Check Record.Sound.
 
 (** Whatever state the chain starts from (provided its store maps ids to the records they
     were derived from, which holds initially and is preserved), if the step [st] executed
@@ -40,6 +40,16 @@ Theorem ids_pairwise_distinct :
     NoDup (map fst (created s steps)).
 Proof. exact ids_pairwise_distinct_lemma. Qed.
 Print Assumptions ids_pairwise_distinct.
+
+(** The decidable predicates that the correspondence check evaluates on the IMPLEMENTATION's
+    observations (model agreement, read-back of every id ever returned, no id returned twice)
+    hold of the MODEL's own trace for every guarded history: the checker answers (-1, -1). *)
+Theorem model_passes_check :
+  forall (c0 : Z) (steps : list step),
+    0 <= c0 < two32 -> NoDup (tx_hashes steps) -> small_txs steps ->
+    check_from (mkState [] c0) [] (model_trace (mkState [] c0) [] steps) 0 (-1) (-1) = (-1, -1).
+Proof. exact model_passes_check_lemma. Qed.
+Print Assumptions model_passes_check.
 
 (** The hypotheses are satisfiable by a non-trivial history: byte-identical records from the
     same creator in one transaction, in another transaction, and across a block boundary. *)
